@@ -24,7 +24,6 @@ type levelIterator struct {
 	slice *dbstorage.Range
 }
 
-
 func newMemStorage() (store dbstorage.Storage, err error) {
 	mdb, err := leveldb.Open(storage.NewMemStorage(), &opt.Options{})
 	if err != nil {
